@@ -86,6 +86,32 @@ pub fn configs() -> Vec<(String, BuildSpec)> {
     s.deps.insert("provides", vec![any("p1"), any("p2"), any("p3"), any("p1")]);
     s.deps.insert("recommends", vec![DepSpec { ctor: "user", name: "user2".into(), version: "".into() }, any("m1"), DepSpec { ctor: "group", name: "group1".into(), version: "".into() }, any("m2"), DepSpec { ctor: "user", name: "user2".into(), version: "".into() }]);
     v.push(("3 users, dependencies listed more than once, owner recommends also given by hand".into(), s));
+    // everything that has several members at once: whatever a builder might collect in a hash map on the way
+    let mut s = crate::corpus::rich();
+    s.name = "cmulti".into();
+    s.source_date = Some(SD);
+    s.compression = Comp::Gzip(1);
+    let clause_sets = ["cap_net_raw+ep cap_chown+i cap_kill=p cap_fowner-e cap_setuid+eip", "cap_chown,cap_kill=ep cap_fowner+i", "=p cap_setgid+e cap_net_admin-p cap_sys_admin+i"];
+    let mut k = 0;
+    for f in s.files.iter_mut() {
+        if matches!(f.mode, ModeSpec::Inherit(_) | ModeSpec::Regular(_)) && f.caps.is_none() {
+            f.caps = Some(clause_sets[k % clause_sets.len()].into());
+            k += 1;
+        }
+    }
+    for (i, kind) in DEP_KINDS.iter().enumerate() {
+        let e = s.deps.entry(kind).or_default();
+        for j in 0..6 {
+            e.push(DepSpec { ctor: ["any", "eq", "less", "greater_eq"][(i + j) % 4], name: format!("{}-{}", kind, (j * 7 + i) % 6), version: format!("{}.{}", i, j) });
+        }
+    }
+    for (j, sk) in SCRIPT_KINDS.iter().enumerate() {
+        s.scripts.entry(sk).or_insert(ScriptSpec { script: format!("echo {}", j), flags: Some(j as u32 % 8), prog: Some(vec!["/bin/sh".into(), format!("-{}", j)]) });
+    }
+    for j in 0..6u32 {
+        s.changelog.push((format!("P{} <p{}@x> - {}", j, j, j), format!("- entry {}", j), SD - 1000 - j * 86_400));
+    }
+    v.push(("the rich configuration with several members of everything: capability texts of three to five clauses with different flag parts, six dependencies of each kind, all nine scriptlets, seven changelog entries, many directories and owners".into(), s));
     v
 }
 
@@ -115,7 +141,7 @@ fn build_with(env: &Arc<Env>, spec: &BuildSpec, seed: u64, clock: i64) -> Result
 }
 
 /// All timestamps of a package: (what, value)
-fn timestamps(x: &[u8]) -> Vec<(String, u32)> {
+pub fn timestamps(x: &[u8]) -> Vec<(String, u32)> {
     let mut out = vec![];
     let Some((_, sig, hdr, _)) = scan(x) else { return out };
     let get = |h: &vlib::refhdr::RawHeader, tag: u32| h.entries.iter().skip(1).find(|e| e.tag == tag).and_then(|e| value(e, &h.store).ok());
